@@ -120,6 +120,10 @@ func c31NewPair(rt *rapid.T) (p *c31pair, msg string) {
 		return nil, fmt.Sprintf("%s: isLower not antisymmetric: a=%v b=%v", desc, ka.IsLower(), kb.IsLower())
 	}
 	ca, cb := hnPipe()
+	// the transport under the channel may hand a written frame over in pieces (TCP segments, a re-chunking relay)
+	seg := rapid.SampledFrom([]int{0, 0, 0, 1460, 536, 100, 17, 7, 1}).Draw(rt, "transportSegment")
+	ca.seg, cb.seg = seg, seg
+	desc += fmt.Sprintf(" seg=%d", seg)
 	a, err := ka.NewConn(ca, sa)
 	if err != nil {
 		return nil, fmt.Sprintf("%s: NewSecureConn a: %v", desc, err)
